@@ -578,3 +578,9 @@ V("SR1-digital-header-not-routed", "C11", "SR1",
   ("tdms_segment.py", "        if raw_data_index_header in (FORMAT_CHANGING_SCALER, DIGITAL_LINE_SCALER):\n            return DaqmxSegmentObject(object_path)", "        if raw_data_index_header in (FORMAT_CHANGING_SCALER,):\n            return DaqmxSegmentObject(object_path)"))
 V("BL3-daqmx-metadata-little-endian", "C11", "BL3",
   ("daqmx.py", "         scaler_vector_length) = _struct_unpack(endianness + 'LQL', metadata_bytes)", "         scaler_vector_length) = _struct_unpack('<LQL', metadata_bytes)"))
+
+V("DL1-mask-before-shift-overflows-int8", "C11", "DL1",
+  ("daqmx.py", "        return np.bitwise_and(np.right_shift(data, bit_offset), 1)\n",
+   "        bitmask = 1 << bit_offset\n        return np.right_shift(np.bitwise_and(data, bitmask), bit_offset)\n"))
+V("DL1-benign-operator-form", "C11", None,
+  ("daqmx.py", "        return np.bitwise_and(np.right_shift(data, bit_offset), 1)\n", "        return (data >> bit_offset) & 1\n"))
